@@ -50,6 +50,54 @@ def _codes(n: ast.AST) -> list[str]:
     return [x.attr for x in ast.walk(n) if isinstance(x, ast.Attribute) and ast.unparse(x.value) in ("FilestoreResponseStatusCode", "FilestoreResult")]
 
 
+# which already existing paths (parameter position after self) an operation changes or removes on the host; paths that
+# must not exist beforehand (create_file, the new name of rename_file) cannot have a memo entry in a coherent memo
+MUTATES = {"delete_file": (0,), "rename_file": (0,), "replace_file": (0, 1), "remove_directory": (0,), "truncate_file": (0,), "write_data": (0,)}
+
+
+def _instance_state(ci, ev: Evidence) -> list[Finding]:
+    """C17-R7: the reference model's only state is the tree. Either the native filestore keeps no per-instance state that
+    its operations read (today's tree), or every such memo is invalidated for every path an operation changes."""
+    ev.rule("C17-R7", "results depend on the host tree only: no instance state is read by an operation, or each memo keyed by path is invalidated by every operation for every path it changes", 1)
+    out: list[Finding] = []
+    reads: dict[str, list[tuple[str, ast.AST]]] = {}
+    for mname, fi in ci.methods.items():
+        if mname == "__init__":
+            continue
+        called = {id(n.func) for n in ast.walk(fi.node) if isinstance(n, ast.Call)}
+        for n in ast.walk(fi.node):
+            if isinstance(n, ast.Attribute) and isinstance(n.value, ast.Name) and n.value.id == "self" and id(n) not in called and n.attr not in ci.methods:
+                reads.setdefault(n.attr, []).append((mname, n))
+    if not reads:
+        ev.inst("C17-R7", "NativeFilestore operations read no instance attribute (stateless)", "ok", loc(next(iter(ci.methods.values())), ci.node))
+        return out
+    for attr, uses in sorted(reads.items()):
+        for op, idxs in MUTATES.items():
+            fi = ci.methods.get(op)
+            if fi is None:
+                continue
+            params = [a.arg for a in fi.node.args.args[1:]]
+            for i in idxs:
+                if i >= len(params):
+                    continue
+                par = params[i]
+                inval = False
+                for n in ast.walk(fi.node):
+                    if isinstance(n, ast.Call) and isinstance(n.func, ast.Attribute) and ast.unparse(n.func.value) == f"self.{attr}":
+                        if n.func.attr == "clear" or (n.func.attr in ("pop", "discard", "remove", "__delitem__") and n.args and ast.unparse(n.args[0]) == par):
+                            inval = True
+                    if isinstance(n, ast.Delete) and any(ast.unparse(t) == f"self.{attr}[{par}]" for t in n.targets):
+                        inval = True
+                    if isinstance(n, ast.Assign) and any(ast.unparse(t) == f"self.{attr}" for t in n.targets):
+                        inval = True
+                k = f"{op}: memo self.{attr} invalidated for changed path `{par}`"
+                ev.inst("C17-R7", k, "ok" if inval else "violation", loc(fi, fi.node))
+                if not inval:
+                    out.append(Finding("C17-R7", f"{NF}.{op} | self.{attr} stale for {par}",
+                                       f"{op} changes `{par}` on the host but leaves the instance state self.{attr} (read by {sorted({m for m, _ in uses})}) untouched for it: later results come from stale state, not from the tree", loc(fi, fi.node)))
+    return out
+
+
 def check(ctx: Ctx, ev: Evidence) -> list[Finding]:
     prog = ctx.prog
     out: list[Finding] = []
@@ -210,6 +258,7 @@ def check(ctx: Ctx, ev: Evidence) -> list[Finding]:
     ev.inst("C17-R4", "read_from_opened_file: read(read_len) after the seek", "ok" if ok2 else "violation", loc(fi, fi.node))
     if not (ok1 and ok2):
         out.append(Finding("C17-R4", f"{NF}.read_from_opened_file", "read_from_opened_file does not seek to the offset and read the requested length", loc(fi, fi.node)))
+    out += _instance_state(ci, ev)
     ev.extra["explanation"] = "syntax-tree rules over the 7 status-returning and 4 data operations of NativeFilestore (status-code families, precondition/effect order, open modes, seek/read/write arguments)"
     ev.assume("the equivalence with a reference file-system model over operation histories is NOT decided (runtime property of the host file system)")
     return out
